@@ -1861,9 +1861,41 @@ def knill_repeated_eigenvalue_probe(ctx):
                 ctx.ok(key, nontrivial=True, sample={"estimate": est, "circuit_cx": cx})
 
 
+def lowrank_svd_option_probe(ctx):
+    """The `svd` option must reach the estimate the same way it reaches the synthesis: product states across the default
+    partition (Schmidt rank 1) with a requested rank 2 - the randomized SVD keeps rank 2, the regular one trims to rank 1, so
+    the two routines cost differently (7 / 14 / 21 against 2 / 5 / 8 CNOTs at n = 4 / 5 / 6) and a dropped option shows."""
+    import numpy as np
+    from qclib.state_preparation import LowRankInitialize
+    from qclib.state_preparation.lowrank import cnot_count
+    g = ctx.nprng()
+    for n in ((4, 5) if ctx.quick else (4, 5, 6)):
+        k = (n + 1) // 2
+        a = g.normal(size=2 ** k) + 1j * g.normal(size=2 ** k)
+        b = g.normal(size=2 ** (n - k)) + 1j * g.normal(size=2 ** (n - k))
+        v = np.kron(a, b)
+        v = v / np.linalg.norm(v)
+        for svd in ("randomized", "regular", "auto"):
+            key = f"lowrank.cnot_count:svd-option:n={n}:lr=2:svd={svd}:product-state"
+            rep = {"call": f"lowrank.cnot_count(v, low_rank=2, svd='{svd}') vs cx count of LowRankInitialize(v, {{'lr': 2, 'svd': '{svd}'}})",
+                   "n": n, "svd": svd, "re": [float(x) for x in v.real], "im": [float(x) for x in v.imag], "svdprobe": True}
+            ctx.count(f"boundary:lowrank-svd-option:{svd}")
+            try:
+                est = int(cnot_count(list(v), low_rank=2, svd=svd))
+                cx = cx_count(LowRankInitialize(list(v), opt_params={"lr": 2, "svd": svd}).definition)
+            except Exception as e:  # noqa: BLE001
+                ctx.fail(key + ":raises", f"{type(e).__name__}: {str(e)[:200]}", rep)
+                continue
+            if est != cx:
+                ctx.fail(key + f":diff={est - cx:+d}", f"estimate {est} != circuit {cx}", dict(rep, estimate=est, circuit=cx))
+            else:
+                ctx.ok(key, nontrivial=True, sample={"estimate": est, "circuit_cx": cx})
+
+
 def run(ctx):
     quick = ctx.quick
     gen_ties(ctx, big=not quick)
+    lowrank_svd_option_probe(ctx)
     knill_smallphase_probe(ctx)
     knill_repeated_eigenvalue_probe(ctx)
     cost_ties(ctx)
@@ -1911,6 +1943,19 @@ def search(ctx, hints):
 
 def replay(ctx, payload):
     r = payload["replay"]
+    if r.get("svdprobe"):                   # lowrank_svd_option_probe case (re-run on the stored state)
+        import numpy as np
+        from qclib.state_preparation import LowRankInitialize
+        from qclib.state_preparation.lowrank import cnot_count
+        v = np.array(r["re"]) + 1j * np.array(r["im"])
+        est = int(cnot_count(list(v), low_rank=2, svd=r["svd"]))
+        cx = cx_count(LowRankInitialize(list(v), opt_params={"lr": 2, "svd": r["svd"]}).definition)
+        key = f"lowrank.cnot_count:svd-option:n={r['n']}:lr=2:svd={r['svd']}:product-state"
+        if est != cx:
+            ctx.fail(key + f":diff={est - cx:+d}", f"estimate {est} != circuit {cx}", r)
+        else:
+            ctx.ok(key, nontrivial=True)
+        return
     if "matrix" in r and "job" not in r:    # knill_repeated_eigenvalue_probe case (fixed inputs: the whole probe is re-run)
         knill_repeated_eigenvalue_probe(ctx)
         return
